@@ -157,6 +157,8 @@ def run(cx):
                 a = [cn.c(x) for x in G.call_args(fn, P, b)]
                 cx.add('S-MODE-DISPATCH', '%s/%s/args' % (dirn, vn), a == ['$self', '$data', '$iv'], 'mode function receives (self, data, iv) unchanged', G.where(fn, b))
         cx.add('S-MODE-DISPATCH', dirn, disp == table, '%s dispatches %s (inverse partners: CFB->cfb_decrypt, OFB/CTR->same keystream xor, CBC->cbc_decrypt)' % (dirn, disp), fn.loc())
+        sc = G.ok_sinks(fn)
+        cx.add('S-MODE-DISPATCH', dirn + '/no-shortcut', not sc, 'the dispatcher returns only what a mode function returned (no success value built here, e.g. for empty input — CBC pads an empty message to one block): Ok built at bb%s' % sc, fn.loc())
         G.guard(cx, 'L-IV16', dirn, fn, P, blocks or G.ok_sinks(fn),
                 lambda p: p.kind == 'eq' and sorted([cn.c(p.args[0]), cn.c(p.args[1])]) == ['16', 'len($iv)'], True,
                 'every mode function is reached only with a 16-byte IV')
